@@ -303,6 +303,11 @@ def main():
     L.append('/-- prefix names enumerated by data/cellml_1_0.rng -/')
     L.append('def schemaPrefixes : List String := %s\n' % lean_list([lean_str(s) for s in sorted(prefixes)]))
 
+    # the `ident` pattern of the schema (names of units, components, variables)
+    m = re.search(r'<define name="ident">.*?<param name="pattern">([^<]*)</param>', rng, re.S)
+    L.append('/-- the pattern of `ident` in data/cellml_1_0.rng ("?" when it cannot be found) -/')
+    L.append('def identPattern : String := %s\n' % lean_str(m.group(1) if m else '?'))
+
     L.append('end Cellml.Gen\n')
     text = '\n'.join(L)
     os.makedirs(os.path.dirname(OUT), exist_ok=True)
